@@ -542,10 +542,22 @@ func RunScript(c *ScriptCase) *ScriptOutcome {
 		return fail("requests", fmt.Sprintf("after %s: requests %v match no serialisation of the burst; allowed: %s", s, got, strings.Join(dedup(allowed), " | ")), gs)
 	}
 
+	// every catch event the model has seen listening must have announced it
+	// (ActiveListeningTrace) on the instance's stream, wherever it sits - at
+	// process level or inside sub-processes: that trace is how a caller (and a
+	// process set) learns that an event can be delivered now
+	everArmed := map[string]bool{}
+	noteArmed := func() {
+		for _, id := range m.Armed() {
+			everArmed[id] = true
+		}
+	}
+	noteArmed()
 	for _, s := range c.Script {
 		if r := runStim(s); r != nil {
 			return r
 		}
+		noteArmed()
 		if r := checkEarly(s.String()); r != nil {
 			return r
 		}
@@ -598,6 +610,20 @@ func RunScript(c *ScriptCase) *ScriptOutcome {
 	if rep := RepeatedFlowID(in.Traces()); rep != "" {
 		return fail("flow-id-repeat", rep, gs)
 	}
+	announced := map[string]bool{}
+	for _, t := range in.Traces() {
+		if lt, ok := t.(bpmn.ActiveListeningTrace); ok {
+			announced[elemID(lt.Node)] = true
+		}
+	}
+	for id := range everArmed {
+		if n := c.Graph.Node(id); n == nil && !graphHas(c.Graph, id) {
+			continue
+		}
+		if !announced[id] && isCatch(c.Graph, id) {
+			return fail("listening-not-announced", fmt.Sprintf("catch event %s was listening (it reacted / could react to events) but no ActiveListeningTrace for it reached the instance's subscribers", id), gs)
+		}
+	}
 	sum := Summarize(in.Traces())
 	var unexpected []string
 	for _, e := range sum.Errors {
@@ -609,6 +635,28 @@ func RunScript(c *ScriptCase) *ScriptOutcome {
 		return fail("unexpected-error", fmt.Sprint(unexpected), gs)
 	}
 	return out
+}
+
+func graphHas(g *gen.Graph, id string) bool {
+	found := false
+	g.AllNodes(func(n *gen.Node, _ *gen.Graph) {
+		if n.ID == id {
+			found = true
+		}
+	})
+	return found
+}
+
+// isCatch: an intermediate catch event (boundary events announce themselves
+// the same way but are armed per request in the model, not listed by Armed).
+func isCatch(g *gen.Graph, id string) bool {
+	is := false
+	g.AllNodes(func(n *gen.Node, _ *gen.Graph) {
+		if n.ID == id && n.Kind == gen.KCatch {
+			is = true
+		}
+	})
+	return is
 }
 
 func dedup(xs []string) []string {
